@@ -200,8 +200,10 @@ func (b *assignmentBuilder) structFieldAndStructGettersAndFields(lhs bmodel.Node
 			if err == nil && 0 < len(nestStruct.Contents) {
 				a = nestStruct
 			}
+			return true
 		}
-		return true
+		// This candidate has the name but not a usable type: under :case:off another one may.
+		return false
 	}
 
 	if opts.Getter && opts.Rule != gmodel.MatchRuleNone {
